@@ -20,6 +20,13 @@ Proof. unfold indented_block. now rewrite replace_nl_nil. Qed.
 Lemma indented_block_indent4 x : indented_block x indent4 = indent_block x.
 Proof. reflexivity. Qed.
 
+Lemma list_eqb_bracket sp : list_eqb str_eqb sp [[91%N]] = true -> sp = [[91%N]].
+Proof.
+  destruct sp as [|s [|s2 r]]; cbn [list_eqb]; try discriminate.
+  - rewrite andb_true_r. intros H. apply str_eqb_eq in H. now subst.
+  - rewrite andb_false_r. discriminate.
+Qed.
+
 Lemma list_eqb_brace sp : list_eqb str_eqb sp [[123%N]] = true -> sp = [[123%N]].
 Proof.
   destruct sp as [|s [|s2 r]]; cbn [list_eqb]; try discriminate.
@@ -38,6 +45,9 @@ Section RenderUnfold.
   Lemma render1_transparent sl body : render1 o sl (KTransparent body) = render o sl body.
   Proof. reflexivity. Qed.
   Lemma render1_envbody sl body : render1 o sl (KEnvBody body) = render o sl body.
+  Proof. reflexivity. Qed.
+  Lemma render1_envwrap sl pre post body :
+    render1 o sl (KEnvWrap pre post body) = pre ++ render o sl body ++ post.
   Proof. reflexivity. Qed.
   Lemma render1_math sl d dl dr verb body :
     render1 o sl (KMath d dl dr verb body) =
@@ -88,11 +98,18 @@ Section Main.
     | Some (sp, [Some (NGroup _ _ _ _ _ b)]) =>
         if list_eqb str_eqb sp [[123%N]] && transparent_macro lt nm
         then option_map KTransparent (abs_body b) else None
+    | Some (sp, [None]) =>
+        if list_eqb str_eqb sp [[91%N]] && item_macro lt nm then Some (KSymbol item_text post) else None
     | _ => if no_arg_nodes a then option_map (fun r => KSymbol r post) (symbol_repl lt nm) else None
     end.
   Proof. reflexivity. Qed.
   Lemma abstract_env p e m nm a b :
-    abs (NEnv p e m nm a b) = if transparent_env lt nm then option_map KEnvBody (abs_body b) else None.
+    abs (NEnv p e m nm a b) =
+    if transparent_env lt nm then option_map KEnvBody (abs_body b)
+    else match wrap_env lt nm with
+         | Some (pre, post) => option_map (KEnvWrap pre post) (abs_body b)
+         | None => None
+         end.
   Proof. reflexivity. Qed.
   Lemma abstract_math p e m d dl dr b :
     abs (NMath p e m d dl dr b) = option_map (KMath d dl dr (slice src p e)) (abs_body b).
@@ -103,7 +120,8 @@ Section Main.
     (exists p1 e1 m1 dl dr p2 e2 items body,
         a = Some ([[123%N]], [Some (NGroup p1 e1 m1 dl dr (Some (NList p2 e2 items)))])
         /\ transparent_macro lt nm = true /\ absl items = Some body /\ k = KTransparent body)
-    \/ (no_arg_nodes a = true /\ exists r, symbol_repl lt nm = Some r /\ k = KSymbol r post).
+    \/ (no_arg_nodes a = true /\ exists r, symbol_repl lt nm = Some r /\ k = KSymbol r post)
+    \/ (a = Some ([[91%N]], [None]) /\ item_macro lt nm = true /\ k = KSymbol item_text post).
   Proof.
     rewrite abstract_macro. intros H.
     assert (SYM : (if no_arg_nodes a then option_map (fun r => KSymbol r post) (symbol_repl lt nm) else None)
@@ -111,9 +129,13 @@ Section Main.
                   no_arg_nodes a = true /\ exists r, symbol_repl lt nm = Some r /\ k = KSymbol r post).
     { destruct (no_arg_nodes a); [|discriminate]. destruct (symbol_repl lt nm) as [r|]; [|discriminate].
       cbn [option_map]. intros E. injection E as <-. eauto. }
-    destruct a as [[sp [|[x|] l]]|]; try (right; apply SYM; exact H).
-    destruct l as [|y l]; [|right; apply SYM; destruct x; exact H].
-    destruct x; try (right; apply SYM; exact H).
+    destruct a as [[sp [|[x|] l]]|]; try (right; left; apply SYM; exact H).
+    2:{ destruct l as [|y l]; [|right; left; apply SYM; exact H]. right; right.
+        destruct (list_eqb str_eqb sp [[91%N]]) eqn:Esp; [|discriminate H].
+        destruct (item_macro lt nm) eqn:Eit; [|discriminate H]. cbn [andb] in H.
+        apply list_eqb_bracket in Esp. subst sp. injection H as <-. auto. }
+    destruct l as [|y l]; [|right; left; apply SYM; destruct x; exact H].
+    destruct x; try (right; left; apply SYM; exact H).
     left.
     destruct (list_eqb str_eqb sp [[123%N]]) eqn:Esp; [|discriminate H].
     destruct (transparent_macro lt nm) eqn:Etr; [|discriminate H].
@@ -143,11 +165,14 @@ Section Main.
     - rewrite abstract_group in H. destruct (_ && _); [|discriminate]. destruct (abs_body body); [|discriminate].
       injection H as <-. reflexivity.
     - apply abstract_macro_inv in H as [(p1 & e1 & m1 & dl & dr & p2 & e2 & items & bd & -> & _ & _ & ->)
-                                        |(Ha & r & _ & ->)].
+                                        |[(Ha & r & _ & ->)|(-> & _ & ->)]].
       + reflexivity.
       + cbn [is_bare_macro bare_post]. now rewrite (no_arg_nodes_bare _ Ha).
-    - rewrite abstract_env in H. destruct (transparent_env lt name); [|discriminate].
-      destruct (abs_body body); [|discriminate]. injection H as <-. reflexivity.
+      + reflexivity.
+    - rewrite abstract_env in H. destruct (transparent_env lt name).
+      + destruct (abs_body body); [|discriminate]. injection H as <-. reflexivity.
+      + destruct (wrap_env lt name) as [[pre post]|]; [|discriminate].
+        destruct (abs_body body); [|discriminate]. injection H as <-. reflexivity.
     - cbn [abstract] in H. destruct (assoc (lt_specials lt) chars).
       + destruct (specials_repl lt chars); [|discriminate]. injection H as <-. reflexivity.
       + injection H as <-. now destruct (str_eqb chars _).
@@ -163,9 +188,11 @@ Section Main.
     - rewrite abstract_group in H. destruct (_ && _); [|discriminate]. destruct (abs_body body); [|discriminate].
       injection H as <-. reflexivity.
     - apply abstract_macro_inv in H as [(p1 & e1 & m1 & dl & dr & p2 & e2 & items & bd & -> & _ & _ & ->)
-                                        |(Ha & r & _ & ->)]; reflexivity.
-    - rewrite abstract_env in H. destruct (transparent_env lt name); [|discriminate].
-      destruct (abs_body body); [|discriminate]. injection H as <-. reflexivity.
+                                        |[(Ha & r & _ & ->)|(-> & _ & ->)]]; reflexivity.
+    - rewrite abstract_env in H. destruct (transparent_env lt name).
+      + destruct (abs_body body); [|discriminate]. injection H as <-. reflexivity.
+      + destruct (wrap_env lt name) as [[pre post]|]; [|discriminate].
+        destruct (abs_body body); [|discriminate]. injection H as <-. reflexivity.
     - cbn [abstract] in H. destruct (assoc (lt_specials lt) chars).
       + destruct (specials_repl lt chars); [|discriminate]. injection H as <-. reflexivity.
       + injection H as <-. now destruct (str_eqb chars _).
@@ -219,17 +246,23 @@ Section Main.
       + destruct b as [[]|]; try exact I. destruct H as [_ HF]. now apply Ql_of_Forall.
     - split; [|exact I]. intros k Hk sl st.
       apply abstract_macro_inv in Hk as [(p1 & e1 & m1 & dl & dr & p2 & e2 & items & bd & -> & Htr & Ei & ->)
-                                         |(Ha & r & Hr & ->)].
+                                         |[(Ha & r & Hr & ->)|(-> & Hit & ->)]].
       + cbn [Pargs] in H. apply Forall_inv in H. cbn [Pslot] in H. destruct H as [_ HQ].
         rewrite node_text_macro_transparent by exact Htr.
         rewrite (HQ bd Ei sl st None None eq_refl). reflexivity.
       + now apply node_text_macro_symbol.
+      + now apply node_text_macro_item.
     - split; [|exact I]. intros k Hk sl st. rewrite abstract_env in Hk.
-      destruct (transparent_env lt nm) eqn:Etr; [|discriminate Hk].
-      destruct (abs_body b) as [body|] eqn:Eb; [|discriminate Hk]. injection Hk as <-.
-      destruct (Ql_body b body H0 Eb) as (p2 & e2 & items & -> & Ei & HQ).
-      rewrite node_text_env_transparent by exact Etr.
-      rewrite (HQ body Ei sl st None None eq_refl). reflexivity.
+      destruct (transparent_env lt nm) eqn:Etr.
+      + destruct (abs_body b) as [body|] eqn:Eb; [|discriminate Hk]. injection Hk as <-.
+        destruct (Ql_body b body H0 Eb) as (p2 & e2 & items & -> & Ei & HQ).
+        rewrite node_text_env_transparent by exact Etr.
+        rewrite (HQ body Ei sl st None None eq_refl). reflexivity.
+      + destruct (wrap_env lt nm) as [[pre post]|] eqn:Ew; [|discriminate Hk].
+        destruct (abs_body b) as [body|] eqn:Eb; [|discriminate Hk]. injection Hk as <-.
+        destruct (Ql_body b body H0 Eb) as (p2 & e2 & items & -> & Ei & HQ).
+        rewrite (node_text_env_wrap src lt cx o sl st p e m nm a p2 e2 items pre post Ew).
+        rewrite (HQ body Ei sl st None None eq_refl), render1_envwrap. reflexivity.
     - split; [|exact I]. intros k Hk sl st. cbn [abstract] in Hk.
       destruct (assoc (lt_specials lt) c) eqn:Ea.
       + destruct (specials_repl lt c) as [r|] eqn:Er; [|discriminate Hk]. injection Hk as <-.
